@@ -133,3 +133,84 @@ Proof. exact RecurExact2.C07_forward_exact. Qed.
 Print Assumptions C08_forward_exact.
 
 Example C08_window_independent_nonvacuous : _ := RecurExact2.fetch_window_independent_instance.
+
+(* ---------- reverse exactness and totality of the anchor (Proofs/RecurExact3.v) ---------- *)
+From CG Require Import Proofs.RecurExact3.
+
+(* reverse iteration returns exactly the spec's occurrences of the window, newest first — each once,
+   whatever the chunk edges do (no global occurrence list is assumed: every chunk answer is exact
+   by C07_forward_exact) *)
+Theorem C08_reverse_exact : forall r a b l,
+  lists_ok r -> 0 < r_interval r -> rule_accepted r ->
+  zone_spread_ok (r_zone r) = true ->
+  Forall (fun i => fstart i < fend i) (spec_occurrences r a b) ->
+  a < b ->
+  fetch_reverse r a b = Ok l -> l = rev (spec_occurrences r a b).
+Proof. exact RecurExact3.C08_reverse_exact. Qed.
+Print Assumptions C08_reverse_exact.
+
+Theorem C08_reverse_is_rev_forward_exact : forall r a b lf lr,
+  lists_ok r -> 0 < r_interval r -> rule_accepted r ->
+  zone_spread_ok (r_zone r) = true ->
+  Forall (fun i => fstart i < fend i) lf ->
+  a < b ->
+  fetch_forward r a b = Ok lf -> fetch_reverse r a b = Ok lr -> lr = rev lf.
+Proof. exact RecurExact3.C08_reverse_is_rev_forward_exact. Qed.
+Print Assumptions C08_reverse_is_rev_forward_exact.
+
+(* occurrences have positive length in every well-formed zone table when the duration is positive *)
+Theorem C08_occurrences_positive : forall r,
+  RecurExact3.zone_wf (r_zone r) = true -> 0 < r_dur r -> occ_positive r.
+Proof. exact occ_positive_wf. Qed.
+Print Assumptions C08_occurrences_positive.
+
+(* the phase-aligned anchor exists for EVERY rule — days 29-31 and 29 February included — for every
+   look-back date at or after the anchor's period, and for every earlier one that leaves room for
+   the step-back (1 interval for a 29th/30th, 5 for a 31st, 399 for 29 February) above year 1 *)
+Theorem C08_safe_anchor_total_all : forall r sd,
+  0 < r_interval r ->
+  after_anchor r sd \/ anchor_room r sd ->
+  exists a0, safe_anchor r sd = Some a0.
+Proof. exact safe_anchor_total_all. Qed.
+Print Assumptions C08_safe_anchor_total_all.
+
+(* every finite window at or after the anchor is answered, in both directions, by exactly the spec *)
+Theorem C08_answers_every_window_after_anchor : forall r a b,
+  lists_ok r -> 0 < r_interval r -> rule_accepted r ->
+  zone_spread_ok (r_zone r) = true -> 0 <= r_dur r ->
+  Forall (fun i => fstart i < fend i) (spec_occurrences r a b) ->
+  a < b ->
+  r_freq r = Daily \/ r_freq r = Weekly \/
+  (1 <= year_of (base_day r) /\ base_day r < local_day (r_zone r) (a - lookback_buffer r)) ->
+  (forall b', a <= b' <= b -> dense_after r b') ->
+  fetch_forward r a b = Ok (spec_occurrences r a b) /\
+  fetch_reverse r a b = Ok (rev (spec_occurrences r a b)).
+Proof. exact RecurExact3.C08_answers_every_window_after_anchor. Qed.
+Print Assumptions C08_answers_every_window_after_anchor.
+
+(* "answers EVERY finite window" is false at the edge of the calendar: a 29-February anchor asked
+   about a window before the anchor so close to year 1 that the step-back passes year 1 raises
+   (known finding KF-ANCHOR-YEAR1-C08; the same input raises in /repo) *)
+Theorem C08_answers_every_window_refuted :
+  exists r a b,
+    lists_ok r /\ 0 < r_interval r /\ rule_accepted r /\ zone_spread_ok (r_zone r) = true /\
+    0 < r_dur r /\ a < b /\ 1 <= year_of (local_day (r_zone r) (a - lookback_buffer r)) /\
+    spec_occurrences r a b = [] /\
+    fetch_forward r a b = Raised /\ fetch_reverse r a b = Raised.
+Proof. exact RecurExact3.C08_answers_every_window_refuted. Qed.
+Print Assumptions C08_answers_every_window_refuted.
+
+(* positive length cannot be dropped from reverse exactness: a zero-duration pattern (accepted by the
+   constructor, outside the positive-length domain of the properties) loses the occurrence lying
+   exactly on a chunk edge in a raw reverse fetch *)
+Theorem C08_reverse_exact_zero_duration_refuted :
+  exists r a b lf lr,
+    lists_ok r /\ 0 < r_interval r /\ rule_accepted r /\ zone_spread_ok (r_zone r) = true /\
+    r_dur r = 0 /\ a < b /\
+    fetch_forward r a b = Ok lf /\ fetch_reverse r a b = Ok lr /\
+    length lf = 61%nat /\ length lr = 59%nat /\ lr <> rev lf.
+Proof. exact RecurExact3.C08_reverse_exact_zero_duration_refuted. Qed.
+Print Assumptions C08_reverse_exact_zero_duration_refuted.
+
+Example C08_reverse_exact_nonvacuous : _ := RecurExact3.C08_reverse_exact_instance.
+Example C08_answers_every_window_nonvacuous : _ := RecurExact3.C08_answers_every_window_instance.
